@@ -377,6 +377,7 @@ pub fn evaluate(prog: &Program, out: &RunOut) -> (Vec<Viol>, Feat) {
     f.add("parks_rt", out.outcome.parks);
     f.add("spurious_unparks", out.outcome.spurious_unparks);
     f.add("unpin_object_moved_between_polls", out.outcome.moved_unpin);
+    f.add("stream_wait_with_fresh_waker", out.outcome.stream_handed_over);
     f.add("cross_thread_accesses", out.outcome.cross_checked);
     f.add("spin_end_segments", out.outcome.spin_end_segments);
     if out.outcome.switches > 8 {
